@@ -396,6 +396,7 @@ def run(ctx):
         ctx.floor("R19.o1", "reachable output streams in %s" % fname, live, want)
     ctx.floor("R19.o1", "output streams", total_streams, 4)
     no_streambuf_bypass(ctx)
+    delivery_steps_are_checked(ctx)
 
 def no_streambuf_bypass(ctx):
     """R19.b: o2 relies on `a failed write sets badbit/failbit on the ostream`.  That holds for operator<<, put() and
@@ -419,3 +420,49 @@ def no_streambuf_bypass(ctx):
     ctx.ob("R19.b", "no-streambuf-writes", n_bad == 0, "src", "%d functions scanned, %d direct stream-buffer writes" % (n_fn, n_bad))
     ctx.floor("R19.b", "functions scanned", n_fn, 1500)
 
+
+
+DELIVERY_CALLS = ("rename", "rename_to", "renameat", "copy_to", "link", "symlink", "move_to")
+
+
+def _discarded_delivery_calls(f):
+    out = []
+    for c in f.walk():
+        if c.get("k") == "call" and callee_short(c) in DELIVERY_CALLS:
+            anc = list(f.ancestors(c))
+            if not anc or anc[0].get("k") in ("block", "case", "default", "if", "for", "while", "forrange", "do") and not any(z is c for z in walk(anc[0].get("c") or {})):
+                out.append(c)
+    return out
+
+
+def delivery_steps_are_checked(ctx):
+    """R19.r: the exit status can only report what the program looked at.  The tools write their outputs in place and
+    test the stream after close(); if an output is ever produced somewhere else and then MOVED to its requested name
+    (rename, copy, link), that step is part of "writing the output": its result must be tested, or the stream checks
+    cover a file nobody asked for.  (Seed S9-C19: interrogate_module wrote `<target>.tmp` and called rename() without
+    looking at the result; `-oc <existing directory>` exited 0 with no module file.)"""
+    db = ctx.db
+    ctx.rule("R19.r", "in the tools' main() functions no rename/copy/link call has its result discarded")
+
+    class _P:       # the detector sees the shape it looks for
+        def __init__(self):
+            self.c = {"k": "call", "f": "rename", "a": []}
+            self.b = {"k": "block", "s": [self.c]}
+
+        def walk(self):
+            return [self.b, self.c]
+
+        def ancestors(self, n):
+            return [self.b] if n is self.c else []
+    if len(_discarded_delivery_calls(_P())) != 1:
+        ctx.broken("R19.r: the detector no longer recognises its own example")
+    n = 0
+    for f in db.functions:
+        if not (f.name.split("::")[-1] == "main" and f.file.endswith(("interrogate.cxx", "interrogate_module.cxx", "parse_file.cxx"))):
+            continue
+        n += 1
+        bad = _discarded_delivery_calls(f)
+        ctx.ob("R19.r", "%s::main|delivery-results-tested" % f.file.split("/")[-1], not bad, f.loc(bad[0]) if bad else f.loc(),
+               "no output is moved into place by a call whose result is ignored" if not bad else
+               "the result of %s() is discarded: a failure to deliver the output is never seen" % callee_short(bad[0]))
+    ctx.floor("R19.r", "main() functions of the tools", n, 3)
